@@ -186,6 +186,55 @@ def registry(qT, n_registered, spelling):
     return Out(parts=parts, obs={"exc": e1 is not None, "r": list(r1) if r1 is not None else None})
 
 
+def registry_history(qA, qB, ops):
+    """Histories on one registry: queries interleaved with replacing / deleting / re-adding the registered entry
+    (and on a deep copy, as the interpolation code does).  Every answer must reflect the entry registered *now*."""
+    import copy
+
+    A, ta, MA = hm("a", qA, 1, False, FrameID.BASE_LINK, FrameID.MAP)
+    B, tb, MB = hm("b", qB, 1, False, FrameID.BASE_LINK, FrameID.MAP)
+    td = TransformDict([A])
+    p = vec("p")
+    cur = (ta, MA)
+    key = (FrameID.BASE_LINK, FrameID.MAP)
+    parts = {}
+
+    def check(tag):
+        for name, k, inverse in (("direct", (FrameID.BASE_LINK, FrameID.MAP), False),
+                                 ("inverse", (FrameID.MAP, "base_link"), True)):
+            try:
+                r, exc = td.transform(k, tuple(p)), None
+            except KeyError as e:
+                r, exc = None, e
+            if cur is None:
+                parts[f"{tag}_{name}_raises_when_unregistered"] = exc is not None
+            else:
+                t, M = cur
+                exp = mvec(cmat(mT(M)), [a - b for a, b in zip(p, t)]) if inverse else \
+                    [a + b for a, b in zip(mvec(cmat(M), p), t)]
+                parts[f"{tag}_{name}"] = exc is None and close_vec(r, exp)
+
+    check("start")
+    for i, op in enumerate(ops):
+        if op == "set":
+            td[key] = B
+            cur = (tb, MB)
+        elif op == "set_str_key":
+            td[("BASE_LINK", "map")] = B
+            cur = (tb, MB)
+        elif op == "del":
+            del td[key]
+            cur = None
+        elif op == "readd":
+            td[key] = A
+            cur = (ta, MA)
+        elif op == "copy":
+            td = copy.deepcopy(td)
+        check(f"after{i}_{op}")
+    parts["length"] = len(td) == (0 if cur is None else 1)
+    return Out(parts=parts, obs={"n": len(parts)})
+
+
 def obligations(pid, tier):
     quick = tier == "quick"
     qs = list(QUATS)
@@ -199,7 +248,15 @@ def obligations(pid, tier):
         comp_cases = [dict(qA=a, qB=b, sign=s) for a in qs for b in qs for s in (1, -1)]
     reg_cases = [dict(qT=q, n_registered=n, spelling=sp) for q in (("mixed_a", "yaw_3_4_5") if quick else qs)
                  for n in (0, 1, 2) for sp in ("enum", "lower", "upper")]
+    hist_ops = [("set",), ("del",), ("copy", "set"), ("set_str_key", "del", "readd"), ("del", "readd", "set"),
+                ("copy", "del", "readd")]
+    hist_cases = [dict(qA=a, qB=b, ops=list(o)) for (a, b) in ([("yaw_3_4_5", "mixed_a")] if quick else
+                                                              [("yaw_3_4_5", "mixed_a"), ("mixed_b", "roll90"), ("id", "yaw90")])
+                  for o in hist_ops]
     return [
+        Obligation("registry_history", registry_history, cases=hist_cases,
+                   desc="queries interleaved with replacing / deleting / re-adding the registered entry answer with "
+                        "the entry registered at that moment (direct and inverse fallback)"),
         Obligation("inverse_roundtrip", inverse_roundtrip, cases=inv_cases,
                    desc="T^-1(T(p,R)) = (p,R); transform(p,R) equals the 4x4 matrix product; overloads agree"),
         Obligation("composition", composition, cases=comp_cases,
@@ -212,7 +269,7 @@ def obligations(pid, tier):
 def meta(pid):
     return {
         "functions": ["common.transform.HomogeneousMatrix.__init__/dot/inv/transform (3 overloads)/from-matrix helpers",
-                      "common.transform.TransformDict.__init__/get/transform", "common.transform.TransformKey",
+                      "common.transform.TransformDict.__init__/get/transform/__setitem__/__delitem__/__len__", "common.transform.TransformKey",
                       "common.schema.FrameID.from_value"],
         "files": ["common/transform.py", "common/schema.py"],
         "bounds": {"quick": "rotations: 11 rational quaternions (yaw, roll, pitch, 3-D mixed) x both signs, given as "
